@@ -256,6 +256,16 @@ def handle (line : String) : String :=
           | some h => s!"ok {h} | {showF (pastify φ)}"
           | none => "err rtamt"
       | none => "bad-input"
+  | "pastgen" :: f :: _ =>
+      -- horizon and pastifier run through the visit methods translated from the Python source
+      match parseFormula f with
+      | some φ =>
+          match (Py.horG φ : Except PyErr Int), Py.pastifyG φ with
+          | .ok h, .ok ψ => s!"ok {h} | {showF ψ}"
+          | .error .rtamt, _ => "err rtamt"
+          | _, .error .rtamt => "err rtamt"
+          | _, _ => "err other"
+      | none => "bad-input"
   | "frag" :: name :: f :: _ =>
       match parseFormula f with
       | some φ =>
